@@ -93,6 +93,7 @@ func init() {
 			return ex.nondet("repoDir", "atom")
 		},
 		ergoPath + ".zzStageFile": func(ex *Exec, c *callCtx) Value { return TupleV{} },
+		ergoPath + ".zzTouchUnder": func(ex *Exec, c *callCtx) Value { return nil },
 		ergoPath + ".zzIsNative": func(ex *Exec, c *callCtx) Value { return BoolV{False} },
 		ergoPath + ".zzLastStat": func(ex *Exec, c *callCtx) Value {
 			if lastStat.path == nil {
